@@ -61,6 +61,10 @@ CHECKS = {
    text="Inside the C19 simulator, option vectors antctl's own command line accepts go through add -> [start -> stop] -> upgrade across process boundaries (saved registry), with and without injected failures; the simulated OS records the ServiceInstallCtx at install and upgrade; program, user, env, autostart, working dir and the parsed meaning of the argument lists (obtained by running the real antnode binary with a guarded print-and-exit hook) must be equal except where the lifecycle changes something explicitly (port pinned after a start), and the installed meaning must equal the intended configuration derived independently from the option vector.",
    note="Trusted: as C19; the hooked antnode binary is built from /repo's working tree by the check.",
    technique="deterministic simulation: persisted lifecycle under a simulated OS, translation check of argument lists through the real antnode parser"),
+ "C09": dict(sim="cluster", level="exploration", ref="5 C09",
+   text="Seeded search over 2-3 full real nodes in one process (Node + SwarmDriver + store + fetcher each, routing tables containing each other): seeded client uploads of all kinds incl. divergent versions of one mutable record at different nodes, replication rounds (clock past the throttle, TriggerIntervalReplication, Replicate lists, GetReplicatedRecord fetches, store_replicated_in_record) over a simulated transport that delays, reorders, duplicates and loses messages and injects advertisements from a peer that is not among the closest; after the faults stop, 6 clean rounds must leave byte-identical immutable records and converged mutable records on all nodes; every periodic Replicate list must equal the sender's held set.",
+   note="Trusted: the simulator carries the same Request/Response values between the real handlers (libp2p stubbed); all nodes mutual replication candidates, no responsible range, spare capacity; Instant deadlines aged through the guarded hook.",
+   technique="deterministic simulation: several real nodes over a simulated lossy transport, bounded-convergence oracle after faults stop"),
 }
 
 NOT_APPLICABLE = {
